@@ -72,6 +72,15 @@ pub fn summary_props(sum: &J, cp: i64) -> Vec<(u32, Vec<u8>)> {
 /// order), "gap" (section offset 64 after zero bytes, values in ascending order)
 pub fn summary_stream(sum: &J, cp: i64, layout: &str) -> Vec<u8> {
     let mut props = summary_props(sum, cp);
+    // "nocp": no code-page property at all; "cp0": the property holds 0 (both mean the default page, UTF-8)
+    if layout == "nocp" {
+        props.retain(|p| p.0 != 1);
+    } else if layout == "cp0" {
+        for p in props.iter_mut().filter(|p| p.0 == 1) {
+            p.1[4] = 0;
+            p.1[5] = 0;
+        }
+    }
     props.sort_by_key(|p| p.0);
     if layout == "desc" {
         props.reverse();
